@@ -17,6 +17,7 @@ import (
 	"github.com/openGemini/openGemini/engine"
 	"github.com/openGemini/openGemini/lib/config"
 	"github.com/openGemini/openGemini/lib/errno"
+	"github.com/openGemini/openGemini/lib/metaclient"
 	"github.com/openGemini/openGemini/lib/util/lifted/influx/meta"
 	"github.com/openGemini/openGemini/services/retention"
 	"verifharness/internal/gen"
@@ -52,7 +53,7 @@ type XObs struct {
 	SGs  []XSG      `json:"sgs"`
 	IGs  []XIG      `json:"igs"`
 	NSh  []int64    `json:"nsh"`
-	NIx  []int64    `json:"nix"`
+	NIx  [][2]int64 `json:"nix"` // (index id, end time the running engine holds for it)
 	DSh  []int64    `json:"dsh"`
 	DIx  []int64    `json:"dix"`
 }
@@ -77,6 +78,7 @@ type XTrace struct {
 	Oracle   []XFail    `json:"oracle"`
 	Nontriv  bool       `json:"nontrivial"`
 	IxDel    int        `json:"ixdel"`   // indexes physically deleted in the trace
+	Store    bool       `json:"store"`   // indexes went through the store's own creation / reopening code
 	Shared   bool       `json:"shared"`  // some index served two shard groups
 	Skipped  int        `json:"skipped"` // index deletions the oracle could not judge (index not listed)
 }
@@ -98,7 +100,10 @@ type xworld struct {
 	data       *meta.Data
 	nodes      []*xnode
 	book       map[uint64]xbook // every shard ever materialised
+	store      bool             // indexes are created / reopened through the store's own code (real index on disk); else installed by hook
+	lastNow    int64            // clock reading of the last pass
 	ixspec     map[uint32]map[uint64]engine.VerifIndexSpec
+	client     *metaclient.Client // what the store uses to look its database up when it creates / reopens an index
 	want       map[int64]int64
 	dir        string
 	failSh     bool
@@ -212,6 +217,8 @@ func newXWorld(pols [][4]int64, ptnum int, dir string) *xworld {
 		dbi.RetentionPolicies[rpi.Name] = rpi
 	}
 	w.data.Databases[db] = dbi
+	w.client = metaclient.NewClient("", false, 0)
+	w.client.SetCacheData(w.data)
 	for i := 0; i < ptnum; i++ {
 		w.addNode()
 	}
@@ -276,15 +283,20 @@ func sorted64(x []uint64) []int64 {
 func (w *xworld) obs(ok bool) XObs {
 	o := XObs{OK: ok}
 	w.catObs(&o)
-	var sh, ix []uint64
+	var sh []uint64
+	o.NIx = [][2]int64{}
 	for pt, n := range w.nodes {
 		sh = append(sh, n.eng.VerifShardIDs(db, uint32(pt))...)
 		for id := range n.ondisk {
 			sh = append(sh, id)
 		}
-		ix = append(ix, n.eng.VerifIndexIDs(db, uint32(pt))...)
+		for _, id := range n.eng.VerifIndexIDs(db, uint32(pt)) {
+			end, _ := n.eng.VerifIndexEnd(db, uint32(pt), id)
+			o.NIx = append(o.NIx, [2]int64{int64(id), end.UnixNano()})
+		}
 	}
-	o.NSh, o.NIx = sorted64(sh), sorted64(ix)
+	sort.Slice(o.NIx, func(i, j int) bool { return o.NIx[i][0] < o.NIx[j][0] })
+	o.NSh = sorted64(sh)
 	// the log of the pass: every id the service asked to delete (the model's victims), shards and indexes
 	o.DSh, o.DIx = sorted64(w.delSh), sorted64(w.delIx)
 	return o
@@ -341,8 +353,14 @@ func (w *xworld) mat(gid uint64, loaded bool) {
 		}
 		tri := rp.TimeRangeInfo(sh.ID) // what the store asks meta for when it creates the shard
 		n := w.nodes[pt]
-		if _, ok := w.ixspec[pt][tri.OwnerIndex.IndexID]; !ok || !w.hasIx(pt, tri.OwnerIndex.IndexID) {
-			p := filepath.Join(n.dir, "index", fmt.Sprint(tri.OwnerIndex.IndexID))
+		if w.store {
+			// the store's own path: DBPTInfo.NewMergeSetIndex creates (and opens, on disk) the index unless the partition has it
+			if _, err := n.eng.VerifStoreNewIndex(db, pt, rp.Name, tri, w.client); err != nil {
+				fmt.Fprintln(os.Stderr, "store could not create the index:", err)
+				os.Exit(3)
+			}
+		} else if !w.hasIx(pt, tri.OwnerIndex.IndexID) {
+			p := filepath.Join(n.dir, rp.Name, "index", fmt.Sprintf("%d_light", tri.OwnerIndex.IndexID))
 			_ = os.MkdirAll(p, 0o755)
 			sp := engine.VerifIndexSpec{ID: tri.OwnerIndex.IndexID, GroupID: tri.OwnerIndex.IndexGroupID, Policy: rp.Name,
 				Start: tri.OwnerIndex.TimeRange.StartTime, End: tri.OwnerIndex.TimeRange.EndTime,
@@ -374,13 +392,34 @@ func (w *xworld) restart(pt uint32) {
 	for _, id := range n.eng.VerifShardIDs(db, pt) {
 		n.ondisk[id] = true
 	}
-	ixs := n.eng.VerifIndexIDs(db, pt)
+	// process stop, then what a starting store does: every index directory of every policy is reopened, its span parsed
+	// from the directory name; durations are unknown until the next refresh
+	if !w.store {
+		ixs := n.eng.VerifIndexIDs(db, pt)
+		n.eng = engine.VerifNewRetentionEngineDir(db, pt, n.dir)
+		for _, id := range ixs {
+			sp := w.ixspec[pt][id]
+			sp.Duration, sp.GroupID = 0, 0
+			n.eng.VerifAddIndex(db, pt, sp)
+		}
+		return
+	}
+	n.eng.VerifCloseIndexes(db, pt)
 	n.eng = engine.VerifNewRetentionEngineDir(db, pt, n.dir)
-	for _, id := range ixs { // indexes are reopened at start-up; their duration is unknown until the next refresh
-		sp := w.ixspec[pt][id]
-		sp.Duration = 0
-		sp.GroupID = 0
-		n.eng.VerifAddIndex(db, pt, sp)
+	for _, rp := range w.rps() {
+		if err := n.eng.VerifOpenIndexes(db, pt, rp.Name, w.client); err != nil {
+			fmt.Fprintln(os.Stderr, "store could not reopen its indexes:", err)
+			os.Exit(3)
+		}
+	}
+}
+
+func (w *xworld) closeAll() {
+	if !w.store {
+		return
+	}
+	for pt, n := range w.nodes {
+		n.eng.VerifCloseIndexes(db, uint32(pt))
 	}
 }
 
@@ -449,6 +488,7 @@ func (w *xworld) tick(ev *XEvent, evIdx int, tr *XTrace) {
 	w.failIx = ev.Kind == "tickfail" && ev.Fail == 2
 	defer func() { w.failSh, w.failIx = false, false }()
 	fakeNow = time.Unix(0, ev.Now).UTC()
+	w.lastNow = ev.Now
 	before := w.snap()
 	type pre struct {
 		b      xbook
@@ -495,7 +535,7 @@ func (w *xworld) tick(ev *XEvent, evIdx int, tr *XTrace) {
 			tr.Skipped++
 			continue
 		}
-		if _, err := os.Stat(w.ixspec[pt][x].Path); err == nil {
+		if m, _ := filepath.Glob(filepath.Join(n.dir, "*", "index", fmt.Sprintf("%d_*", x))); len(m) > 0 {
 			fail("index-dir-left", fmt.Sprintf("index %d reported deleted but its directory still exists", x), map[string]int64{"index": int64(x)}, nil, nil)
 		}
 		for id, p := range shBefore {
@@ -566,13 +606,17 @@ func (w *xworld) tick(ev *XEvent, evIdx int, tr *XTrace) {
 	}
 }
 
-func genXTrace(r *gen.Rand, dir string) XTrace {
+func genXTrace(r *gen.Rand, dir string, store bool) XTrace {
 	hour := int64(time.Hour)
 	base := int64(1700000000)*1e9 - (int64(1700000000)*1e9)%(24*hour)
 	durs := []int64{0, hour, 2 * hour, 6 * hour, 24 * hour, 7 * 24 * hour}
 	sgds := []int64{hour, 2 * hour, 3 * hour, 4 * hour, 24 * hour}
 	npol := r.Range(1, 2)
-	tr := XTrace{Mode: "ix", PtNum: r.Range(1, 2), Oracle: []XFail{}}
+	tr := XTrace{Mode: "ix", PtNum: r.Range(1, 2), Oracle: []XFail{}, Store: store}
+	opening := r.Intn(7)
+	if opening == 4 {
+		tr.PtNum = 2
+	}
 	for i := 1; i <= npol; i++ {
 		sgd := gen.Pick(r, sgds[:4])
 		igd := sgd * int64(gen.Pick(r, []int{1, 1, 2, 2, 4}))
@@ -580,10 +624,22 @@ func genXTrace(r *gen.Rand, dir string) XTrace {
 		if d != 0 && d < sgd {
 			d = sgd
 		}
+		if i == 1 && opening == 4 && d == 0 {
+			d = gen.Pick(r, []int64{sgd, 2 * sgd})
+		}
+		if i == 1 && opening == 3 { // one index group serves several shard groups of a limited policy
+			igd = sgd * int64(gen.Pick(r, []int{2, 3, 4}))
+			d = gen.Pick(r, []int64{sgd, 2 * sgd, 6 * hour, 24 * hour})
+			if d < sgd {
+				d = sgd
+			}
+		}
 		tr.Policies = append(tr.Policies, [4]int64{int64(i), d, sgd, igd})
 	}
 	w := newXWorld(tr.Policies, tr.PtNum, dir)
+	w.store = store
 	defer os.RemoveAll(dir)
+	defer w.closeAll()
 	n := r.Range(6, 18)
 	var stamps []int64 // timestamps used so far (new groups are often aimed next to old ones)
 	matd := map[uint64]bool{}
@@ -591,7 +647,7 @@ func genXTrace(r *gen.Rand, dir string) XTrace {
 	// so that a later, longer group may be served by the older, shorter index group; 2 = partitions are added between
 	// the creation of groups, so that id ranges interleave
 	var script []XEvent
-	switch r.Intn(5) {
+	switch opening {
 	case 1:
 		p := tr.Policies[0]
 		t0 := base + int64(r.Range(-20, 20))*p[3]
@@ -606,6 +662,28 @@ func genXTrace(r *gen.Rand, dir string) XTrace {
 			script[1], script[0] = script[0], script[1]
 			script = script[1:]
 		}
+	case 3:
+		// groups at the start and towards the end of one index group, both on the nodes; then a pass right after the first
+		// group expired (the later group and the index must stay)
+		p := tr.Policies[0]
+		g := base + int64(r.Range(-20, 20))*p[3]
+		k := p[3]/p[2] - 1
+		script = append(script, XEvent{Kind: "create", RP: 1, TS: g + int64(r.Intn(3000))*1e9},
+			XEvent{Kind: "create", RP: 1, TS: g + k*p[2] + int64(r.Intn(3000))*1e9},
+			XEvent{Kind: "mat", GID: 1, Loaded: true}, XEvent{Kind: "mat", GID: 2, Loaded: r.Chance(3, 4)},
+			XEvent{Kind: "tick", PT: 0, Now: g + p[2] + p[1] + gen.Pick(r, []int64{1, 2, hour / 2})})
+		if r.Chance(1, 3) {
+			script = append(script[:4], XEvent{Kind: "restart", PT: 0}, script[4])
+		}
+	case 4:
+		// one node's pass marks an expired group deleted while the other node has not run yet (the group stays listed);
+		// the duration is raised; late data for the same span arrives
+		p := tr.Policies[0]
+		g := base + int64(r.Range(-20, 20))*p[2]
+		nd := gen.Pick(r, []int64{0, 7 * 24 * hour, 1000 * hour})
+		script = append(script, XEvent{Kind: "create", RP: 1, TS: g + int64(r.Intn(1800))*1e9}, XEvent{Kind: "mat", GID: 1, Loaded: true},
+			XEvent{Kind: "tick", PT: int64(r.Intn(2)), Now: g + p[2] + p[1] + gen.Pick(r, []int64{1, hour / 2})},
+			XEvent{Kind: "alter", RP: 1, D: &nd}, XEvent{Kind: "create", RP: 1, TS: g + int64(1800+r.Intn(1700))*1e9})
 	case 2:
 		script = append(script, XEvent{Kind: "create", RP: 1, TS: base + int64(r.Range(-40, 40))*hour},
 			XEvent{Kind: "create", RP: int64(r.Range(1, npol)), TS: base + int64(r.Range(-40, 40))*hour}, XEvent{Kind: "expand"},
@@ -720,7 +798,28 @@ func (w *xworld) apply(ev XEvent, tr *XTrace) {
 	w.delSh, w.goneSh, w.delIx, w.goneIx = nil, nil, nil, nil
 	switch ev.Kind {
 	case "create":
-		_ = w.data.CreateShardGroup(db, rpName(ev.RP), time.Unix(0, ev.TS).UTC(), 0, config.TSSTORE, 0)
+		ts := time.Unix(0, ev.TS).UTC()
+		_ = w.data.CreateShardGroup(db, rpName(ev.RP), ts, 0, config.TSSTORE, 0)
+		// the writer then routes the point into the group this lookup returns (metaclient.Client.CreateShardGroup) and
+		// acknowledges it. Direct oracle: a point inside the retention window (at the last clock reading) that is routed
+		// somewhere must lie in a group the read path consults for its timestamp.
+		rpi := w.data.Databases[db].RetentionPolicies[rpName(ev.RP)]
+		if g := rpi.ShardGroupByTimestampAndEngineType(ts, config.TSSTORE); g != nil {
+			read, _ := w.data.ShardGroupsByTimeRange(db, rpName(ev.RP), ts, ts)
+			seen := false
+			for i := range read {
+				if read[i].ID == g.ID {
+					seen = true
+				}
+			}
+			d := w.want[ev.RP]
+			if !seen && (d == 0 || w.lastNow == 0 || ev.TS >= w.lastNow-d) {
+				tr.Oracle = append(tr.Oracle, XFail{Kind: "acknowledged-point-unreadable", Event: len(tr.Events),
+					Msg: fmt.Sprintf("a point at %d (inside the window of d=%d at clock %d) is routed into shard group %d (marked deleted: %v), which no read of that timestamp consults",
+						ev.TS, d, w.lastNow, g.ID, g.Deleted()),
+					Facts: map[string]int64{"ts": ev.TS, "group": int64(g.ID), "d": d, "now": w.lastNow, "deleted": b2i(g.Deleted())}})
+			}
+		}
 	case "mat":
 		w.mat(uint64(ev.GID), ev.Loaded)
 	case "alter":
@@ -792,7 +891,12 @@ func runIx(n int) {
 	defer os.RemoveAll(root)
 	r := gen.FromEnv(1414)
 	for i := 0; i < n; i++ {
-		gen.Emit(genXTrace(r.Fork(), filepath.Join(root, fmt.Sprint(i))))
+		// every third trace (every sixth in the thorough tier) creates and reopens its indexes through the store's own code
+		every := 3
+		if gen.Tier() == "thorough" {
+			every = 6
+		}
+		gen.Emit(genXTrace(r.Fork(), filepath.Join(root, fmt.Sprint(i)), i%every == 0))
 	}
 }
 
@@ -820,8 +924,9 @@ func runIxReplay(path string) {
 	root = filepath.Join(root, fmt.Sprintf("c14ixr-%d", os.Getpid()))
 	defer os.RemoveAll(root)
 	for i, in := range ins {
-		tr := XTrace{Mode: "ix", Policies: in.Policies, PtNum: in.PtNum, Oracle: []XFail{}}
+		tr := XTrace{Mode: "ix", Policies: in.Policies, PtNum: in.PtNum, Oracle: []XFail{}, Store: true}
 		w := newXWorld(tr.Policies, tr.PtNum, filepath.Join(root, fmt.Sprint(i)))
+		w.store = true
 		for _, ev := range in.Events {
 			if ev.Kind == "mat" && !w.canMat(uint64(ev.GID)) {
 				continue
@@ -832,6 +937,7 @@ func runIxReplay(path string) {
 			w.apply(ev, &tr)
 		}
 		w.finish(&tr)
+		w.closeAll()
 		gen.Emit(tr)
 	}
 }
